@@ -83,8 +83,8 @@ P = {
          "contract-based deductive verification (Verus on mechanically extracted functions; Kani for codecs)", "8 C15"),
 }
 NA = {
- "C19": "behaviour lives in value-bag/serde/sval and proc-macro expansion; emit's code is one-line delegation, no contract within reach decides it (DESIGN.md section 9)",
- "C20": "quantifies over thread schedules of std::sync::OnceLock initialisation; Kani has no threads, Verus has no OnceLock model (DESIGN.md section 9)",
+ "C19": "behaviour lives in value-bag/serde/sval and proc-macro expansion; emit's code is one-line delegation (Value::capture_display etc.), a contract on it would restate the dependency's; a Kani harness for the primitive part (capture-default of integers/bool/f64 pulled back typed, optional None adds nothing) was tried and CBMC does not finish in 15 min on value-bag's capture path (DESIGN-experiments/kani_pub_c19_*); DESIGN.md section 9",
+ "C20": "quantifies over thread schedules of std::sync::OnceLock initialisation; Kani has no threads, Verus has no OnceLock model; a Kani harness for the sequential part only (inert before init, first init wins, second fails and is never used) was tried and CBMC does not finish in 15 min (DESIGN-experiments/kani_pub_c20_*); DESIGN.md section 9",
 }
 checks = []
 for pid in sorted(P):
